@@ -2,7 +2,7 @@
     completeness premise of C16_enum_hit / C16_cross_decode_typed holds at least for all base types. *)
 From RB Require Import Base.Prelude Sig.Types Sig.Validator Wire.Bytes Wire.Align Wire.Text Wire.Value Wire.SpecEnc
   Wire.Marshal Wire.Relabel Wire.MarshalProofs Wire.Decode Wire.Unmarshal Wire.DecodeLemmas Wire.DecodeComplete
-  Wire.HasSig Wire.Derive Wire.DeriveProofs Wire.Enums Wire.EnumsProofs Wire.C16Cross Wire.C16Final Wire.C16Ops.
+  Wire.HasSig Wire.Derive Wire.DeriveProofs Wire.Enums Wire.EnumsProofs Wire.C16Cross Wire.C16Final Wire.EnumsIn Wire.EnumsInProofs Wire.C16Ops.
 
 Definition c_u : N := 117. Definition c_s : N := 115. Definition c_t : N := 116.
 
@@ -133,6 +133,43 @@ Proof.
     + apply (var_macro_hit' 66 false _ _ _ (firstn 2 ex_macro_cases) (macro_case k) (skipn 3 ex_macro_cases) Hav (fuel_ok_66 _));
         [repeat constructor; discriminate|reflexivity|split; reflexivity].
 Qed.
+
+(** ** enums in element position *)
+(* Vec<E> = [A(5), C(7, 258)] after three bytes: the array length is followed by NO padding (alignment 1) *)
+Definition ex_tvs : list (ty * val) := [(TBase BUint32, VBase BUint32 5); (TStruct [TBase BByte; TBase BUint64], ex_sv)].
+Definition ex_arr : val := VArray TVariant (variants ex_tvs).
+Definition ex_xl : cval := XList [XEnum 0 (PSingle (VBase BUint32 5)); XEnum 2 (PFields [VBase BByte 7; VBase BUint64 258])].
+Example ex_enum_vec_marshal :
+  let c := {| mbuf := [9; 9; 9]; mfds := 0 |} in
+  cshape false (CVec (CEnum GDerive ex_cases)) ex_xl = true /\ cval_val (CVec (CEnum GDerive ex_cases)) ex_xl = ex_arr
+  /\ snd (marshal_c false (CVec (CEnum GDerive ex_cases)) ex_xl c) = true
+  /\ marshal_c false (CVec (CEnum GDerive ex_cases)) ex_xl c = marshal_t false ex_arr c
+  /\ marshal_c false (CVec (CEnum GSigMacro ex_cases)) ex_xl c = marshal_t false ex_arr c
+  /\ mbuf (fst (marshal_t false ex_arr c)) = [9; 9; 9] ++ spec_enc false 3 ex_arr
+  (* length field at 4..8, first element's signature directly at 8 *)
+  /\ nthN (mbuf (fst (marshal_t false ex_arr c))) 8 = Some 1 /\ nthN (mbuf (fst (marshal_t false ex_arr c))) 9 = Some c_u.
+Proof. vm_compute. repeat split. Qed.
+Example ex_enum_vec_hits : Forall2 (hits ex_cases) ex_tvs [0%nat; 2%nat] /\ Forall2 (hits_macro ex_cases) ex_tvs [0%nat; 2%nat].
+Proof.
+  split; (constructor; [|constructor; [|constructor]]).
+  - exists [], (CSingle (RBase BUint32)), (tl ex_cases). repeat split; try reflexivity. constructor.
+  - exists (firstn 2 ex_cases), (CFields false ex_rs), (skipn 3 ex_cases). repeat split; try reflexivity. repeat constructor; discriminate.
+  - exists [], (CSingle (RBase BUint32)), (tl ex_cases). repeat split; try reflexivity. constructor.
+  - exists (firstn 2 ex_cases), (CFields false ex_rs), (skipn 3 ex_cases). repeat split; try reflexivity. repeat constructor; discriminate.
+Qed.
+Example ex_enum_vec_unmarshal :
+  let buf := [9; 9; 9] ++ spec_enc true 3 ex_arr ++ [165] in
+  encodable true 3 0 ex_arr = true /\ fds_below 0 ex_arr = true
+  /\ unmarshal_c true (CVec (CEnum GDerive ex_cases)) (Build_uctx buf 3 0 0)
+     = Ok (RList [REnum (ECase 0 (VBase BUint32 5)); REnum (ECase 2 ex_sv)], Build_uctx buf (3 + len (spec_enc true 3 ex_arr)) 0 0)
+  /\ unmarshal_c true (CVec (CEnum GVarMacro ex_cases)) (Build_uctx buf 3 0 0)
+     = Ok (RList [REnum (ECase 0 (VBase BUint32 5)); REnum (ECase 2 ex_sv)], Build_uctx buf (3 + len (spec_enc true 3 ex_arr)) 0 0)
+  (* a tuple (u8, E, u64) and the derived struct with the same fields read alike *)
+  /\ (let f := [CPlain (RBase BByte); CEnum GDerive ex_cases; CPlain (RBase BUint64)] in
+      let b2 := spec_enc false 0 (VStruct [VBase BByte 1; VVariant (TBase BUint32) (VBase BUint32 5); VBase BUint64 2]) in
+      unmarshal_c false (CTuple f) (Build_uctx b2 0 0 0) = unmarshal_c false (CDerived f) (Build_uctx b2 0 0 0)
+      /\ is_ok (unmarshal_c false (CTuple f) (Build_uctx b2 0 0 0)) = true).
+Proof. vm_compute. repeat split. Qed.
 
 (** ** cross-decoding *)
 Example ex_cross :
